@@ -218,6 +218,18 @@ func vfGenBASpec(idx int, seed uint64) vfSpec {
 	}
 	sp.Yield = r.Pick(0, 0, 100, 400)
 	sp.X["yield_nosleep"] = 1
+	// some streams are closed by their writer (and closed back by the reader) while the others keep going:
+	// acknowledgements then cover streams that were already unregistered together with live ones
+	if idx%3 != 0 && r.Intn(2) == 0 {
+		for i := range sp.Streams {
+			if r.Intn(2) == 0 {
+				sp.Streams[i].Close = true
+				if sp.Streams[i].NMsgs > 12 {
+					sp.Streams[i].NMsgs = 3 + r.Intn(10)
+				}
+			}
+		}
+	}
 	// gap-ack followed by cumulative ack of the same TSNs: reordering + loss
 	if r.Intn(2) == 0 {
 		sp.Link.JitterUs = sp.Link.DelayUs * int64(r.Pick(1, 3))
